@@ -28,4 +28,6 @@ def units(tier):
                                                             K=60, timeout_s=2400)),
             H("C09", M, "check_factory_step", 1800 if tier == "thorough" else 700,
               ["loky.reusable_executor:_ReusablePoolExecutor.get_reusable_executor", "loky.reusable_executor:_get_next_executor_id"],
-              "max_workers in {None,-1..3}, reuse in {True,False,'auto'}, context in {None, loky-like, fork-like}, prev size 1..3, next id 1..5")]
+              "max_workers in {None,-1..3}, reuse in {True,False,'auto'}, context in {None, loky-like, fork-like}, prev size 1..3, next id 1..5; the wait of the old instance's shutdown may be interrupted"),
+            H("C09", "lokyverif.harness.c02_broken", "check_shutdown_call", 300, ["loky.process_executor:ProcessPoolExecutor.shutdown"],
+              "'the previous instance is completely shut down first': shutdown(wait=True, kill_workers=*) on an instance that an earlier shutdown(wait=False) already flagged still wakes and joins the manager thread (16 combinations)")]
